@@ -378,6 +378,11 @@ def module_family(pid, tier, chk, n=None):
     cases = DM.module_cases_random(chk, n)
     what = "%d seeded random nested inputs with styled keys x frameworks x layouts x options" % n
     m = 300 if quick else 5000
+    if pid in ("C03", "C04", "C11"):
+        kc, total = DM.key_shape_cases(chk, 2 if quick else 3, 250 if quick else 4000)
+        chk.exhaustive_parts.append("MC_Keys: key-shape grammar, %d shapes enumerated by TLC (%d instantiated)" % (total, len(kc)))
+        cases += kc
+        what += " + %d TLC-enumerated key shapes (keywords, builtins, typing / imported / pydantic names, non-ASCII; camel/_/- joins)" % len(kc)
     if pid == "C01":
         mp = DM.mixed_pseudo_cases(chk, 150 if quick else 2000)
         cases += mp
